@@ -430,7 +430,7 @@ def write_baseline():
     print("baseline written: %d (file, kind) rows, totals %s" % (len(info["sites"]), info["total"]))
 
 
-REVIEW_NOTE = """(* REVIEW LOG of the last re-recording (/repo at e6f83f8, 56 commits after b55902d).  Rows that grew since the
+REVIEW_NOTE = """(* REVIEW LOG of the last re-recording (/repo at 1b54dc3, 63 commits after b55902d; the six fix commits after e6f83f8 -- 21fe768 f809321 8eee066 1ae3488 1f1ce08 e3202e5 -- add no site).  Rows that grew since the
    baseline of b55902d, every added site read in its context; each is restated with its guard in Model/ReviewedSites.v
    and proved unreachable in Proofs/ReviewedSitesProofs.v (theorems c12_reviewed_* of Props/C12.v), its text pinned in
    `modelled_expected`:
@@ -454,7 +454,7 @@ REVIEW_NOTE = """(* REVIEW LOG of the last re-recording (/repo at e6f83f8, 56 co
                                   in lookup_cid on a value built as RelationColumn::Single(Some(..)) a few lines
                                   above                                                    (c12_reviewed_lookup_cid_name)
    Rows that shrank: lowering.rs panic 1 -> 0 (7911778) and unwrap 40 -> 39 (e6f83f8), utils/id_gen.rs unwrap 1 -> 0
-   (79f4a51), postprocess.rs index 7 -> 6.  006e33c (lowering.rs), bb7bbd5 (std.sql.prql), 6cdd79f (generated column
+   (79f4a51), postprocess.rs index 7 -> 6, sql/gen_query.rs index_lit 2 -> 1 (1f1ce08).  006e33c (lowering.rs), bb7bbd5 (std.sql.prql), 6cdd79f (generated column
    names) add no site.  arith 11 -> 13: the newly modelled functions (codegen/mod.rs consume -- reset_line's product is a
    saturating_mul since b4fb037 --, preprocess.rs `position + 1`), restated in Model/WidthArith.v / Model/ReviewedSites.v.
    Code under #[cfg(prqlc_verif)] (the verification hooks) is not scanned: it is not compiled in normal builds. *)
